@@ -361,6 +361,40 @@ func (e *Engine) LemmaObligations(want map[string]bool) ([]*Obligation, error) {
 				hyps = append(hyps, smt.Implies(smt.Le(lo, smt.Sub(v, smt.IntC(1))), pb))
 			}
 		}
+		// explicit instances: l2(args) with args over this lemma's parameters
+		for _, ua := range l.UsingApps {
+			call, ok := ua.(*spec.Call)
+			if !ok {
+				return nil, fmt.Errorf("%s:%d: lemma %s: using item must be a lemma application", l.File, l.Line, n)
+			}
+			id, ok := call.Fun.(*spec.Ident)
+			if !ok || e.Lemmas[id.Name] == nil || len(call.Args) != len(e.Lemmas[id.Name].Params) {
+				return nil, fmt.Errorf("%s:%d: lemma %s: using: unknown lemma or wrong arity in %s", l.File, l.Line, n, ua)
+			}
+			ul := e.Lemmas[id.Name]
+			penv := *env
+			penv.Vars = map[string]SVal{}
+			for i, p := range l.Params {
+				penv.Vars[p.Name] = args[i]
+			}
+			var uargs []SVal
+			var evalErr error
+			for _, a := range call.Args {
+				a := a
+				_, err := safeEval(func() *smt.Term { v := x.eval(&penv, a); uargs = append(uargs, v); return v.T })
+				if err != nil {
+					evalErr = err
+				}
+			}
+			if evalErr != nil {
+				return nil, fmt.Errorf("%s:%d: lemma %s: using %s: %v", l.File, l.Line, n, ua, evalErr)
+			}
+			ub, err := safeEval(func() *smt.Term { return x.lemmaInstance(env, ul, uargs) })
+			if err != nil {
+				return nil, err
+			}
+			hyps = append(hyps, ub)
+		}
 		for _, un := range l.Using {
 			ul := e.Lemmas[un]
 			if ul == nil {
